@@ -153,6 +153,8 @@ type bv struct {
 }
 
 type family struct {
+	label     string   // name used in signatures (the fixed-width families share one)
+	top       *big.Int // largest representable value (nil: unbounded)
 	name, typ string
 	bounds    []bv
 	xs        []bv
@@ -218,7 +220,7 @@ func families() []family {
 		mk := func(n int64) bv {
 			return bv{fmt.Sprintf("%d%s", n, fw.suffix), fmt.Sprintf("%d%s", n, fw.suffix), new(big.Rat).SetInt64(n)}
 		}
-		fam := family{name: fw.name, typ: "::Std::" + fw.name, discrete: true, elem: func(n *big.Int) string { return n.String() + fw.suffix }}
+		fam := family{name: fw.name, label: "FixedWidth", top: big.NewInt(fw.top), typ: "::Std::" + fw.name, discrete: true, elem: func(n *big.Int) string { return n.String() + fw.suffix }}
 		fam.bounds = []bv{mk(fw.top - 2), mk(fw.top)}
 		for _, d := range []int64{-3, -2, -1, 0} {
 			fam.xs = append(fam.xs, mk(fw.top+d))
@@ -265,6 +267,9 @@ func (k *rkind) elements(f *family, lo, hi *big.Rat) string {
 		if n == iterCap {
 			b.WriteString("+")
 			break
+		}
+		if f.top != nil && cur.Cmp(f.top) > 0 {
+			return "" // the model element is not representable: what an endless range does at the top of the type is not specified
 		}
 		b.WriteString(f.elem(cur) + ";")
 		cur.Add(cur, big.NewInt(1))
@@ -357,7 +362,11 @@ func runRangeCase(r *engine.R, f *family, k *rkind, lo bv) {
 			if !f.discrete || !k.hasLo {
 				return "", nil
 			}
-			return fmt.Sprintf("  println(\"it \" + sqn(%s, %d))\n", expr, iterCap), []expectLine{{"it", k.elements(f, lo.ord, hi.ord), "iteration"}}
+			want := k.elements(f, lo.ord, hi.ord)
+			if want == "" {
+				return "", nil
+			}
+			return fmt.Sprintf("  println(\"it \" + sqn(%s, %d))\n", expr, iterCap), []expectLine{{"it", want, "iteration"}}
 		}
 		// static: constant-folded range literal, statically bound contains
 		{
@@ -392,12 +401,26 @@ func runRangeCase(r *engine.R, f *family, k *rkind, lo bv) {
 			items = append(items, elkrun.Item{Code: src})
 			metas = append(metas, itemMeta{"switch-pattern", hi, em, fmt.Sprintf("def %s(x: %s): bool\n  switch x\n  case %s then true\n  else false\n  end\nend\n", sw, f.typ, lit) + src})
 		}
-		if f.discrete && k.hasLo {
+		if f.discrete && k.hasLo && k.elements(f, lo.ord, hi.ord) != "" {
 			src := wrap(fmt.Sprintf("  s := \"<\"\n  n := 0\n  for e in %s\n    if n >= %d\n      s = s + \"+\"\n      break\n    end\n    s = s + e.inspect + \";\"\n    n = n + 1\n  end\n  println(\"it \" + s + \">\")\n", lit, iterCap))
 			items = append(items, elkrun.Item{Code: src})
 			metas = append(metas, itemMeta{"for-literal", hi, []expectLine{{"it", k.elements(f, lo.ord, hi.ord), "iteration"}}, src})
 		}
 	}
+	label := f.label
+	if label == "" {
+		label = f.name
+	}
+	// failures of one observable, aggregated over the forms that show it
+	type agg struct {
+		forms  []string
+		detail string
+		src    string
+		n      int
+	}
+	fails := map[string]*agg{}
+	checkedForms := map[string]map[string]bool{}
+	var failKeys []string
 	res := elkrun.Batch(pre.String(), items, nil)
 	for i, ir := range res {
 		m := metas[i]
@@ -405,11 +428,11 @@ func runRangeCase(r *engine.R, f *family, k *rkind, lo bv) {
 		lines, fail := outcome(ir)
 		if fail != "" {
 			if strings.HasPrefix(fail, "REJECTED") {
-				r.Count("range_item_rejected:"+k.name+"/"+m.form, 1)
+				r.Count("range_item_rejected:"+k.name+"/"+f.name+"/"+m.form, 1)
 				r.Note("rejected: " + k.name + "/" + m.form + " " + fail)
 				continue
 			}
-			sig := fmt.Sprintf("range kind=%s family=%s form=%s %s", k.name, f.name, m.form, fail)
+			sig := fmt.Sprintf("range kind=%s family=%s form=%s %s", k.name, label, m.form, fail)
 			if strings.HasPrefix(fail, "GOPANIC") {
 				sig = fmt.Sprintf("range kind=%s go-panic %s", k.name, panicKey(fail))
 			}
@@ -432,7 +455,7 @@ func runRangeCase(r *engine.R, f *family, k *rkind, lo bv) {
 			}
 		}
 		if e, ok := got["ERR"]; ok {
-			r.Violation(fmt.Sprintf("range kind=%s family=%s form=%s unexpected error %s", k.name, f.name, m.form, strings.TrimPrefix(e, "ERR ")), fmt.Sprintf("range %s, form %s raised %s; output so far: %v", rng, m.form, e, lines), m.src)
+			r.Violation(fmt.Sprintf("range kind=%s family=%s form=%s unexpected error %s", k.name, label, m.form, strings.TrimPrefix(e, "ERR ")), fmt.Sprintf("range %s, form %s raised %s; output so far: %v", rng, m.form, e, lines), m.src)
 		}
 		for _, ex := range m.expect {
 			g, ok := got[ex.tag]
@@ -442,20 +465,27 @@ func runRangeCase(r *engine.R, f *family, k *rkind, lo bv) {
 			r.Eval(1)
 			r.NT(1)
 			r.Outcome(ex.what[:2] + "=" + trunc(ex.want, 8))
-			if g == ex.want {
-				continue
-			}
 			what := ex.what
 			if i := strings.Index(what, "("); i >= 0 {
 				what = what[:i]
 			}
-			sig := fmt.Sprintf("range kind=%s family=%s %s form=%s wrong", k.name, f.name, what, m.form)
-			if what != "contains" && what != "iteration" {
-				// the predicates and start/end do not depend on the bound values or on how the range was built
-				sig = fmt.Sprintf("range kind=%s %s wrong", k.name, what)
+			if checkedForms[what] == nil {
+				checkedForms[what] = map[string]bool{}
 			}
-			r.Violation(sig,
-				fmt.Sprintf("range %s, form %s: %s is %s, expected %s", rng, m.form, ex.what, g, ex.want), m.src)
+			checkedForms[what][m.form] = true
+			if g == ex.want {
+				continue
+			}
+			a := fails[what]
+			if a == nil {
+				a = &agg{detail: fmt.Sprintf("range %s (%s bounds), form %s: %s is %s, expected %s", rng, f.name, m.form, ex.what, g, ex.want), src: m.src}
+				fails[what] = a
+				failKeys = append(failKeys, what)
+			}
+			a.n++
+			if !contains2(a.forms, m.form) {
+				a.forms = append(a.forms, m.form)
+			}
 		}
 		// the open/closed predicates must be complementary even on an unbounded side
 		for _, pair := range [][2]string{{"lo", "lc"}, {"ro", "rc"}} {
@@ -466,6 +496,20 @@ func runRangeCase(r *engine.R, f *family, k *rkind, lo bv) {
 					fmt.Sprintf("range %s, form %s: is_%s_open=%s and is_%s_closed=%s", rng, m.form, map[string]string{"lo": "left", "ro": "right"}[pair[0]], a, map[string]string{"lo": "left", "ro": "right"}[pair[0]], b), m.src)
 			}
 		}
+	}
+	sort.Strings(failKeys)
+	for _, what := range failKeys {
+		a := fails[what]
+		sig := fmt.Sprintf("range kind=%s %s wrong", k.name, what)
+		if what == "contains" || what == "iteration" {
+			// membership and iteration depend on the bound values and on how the range was built and consumed
+			forms := strings.Join(a.forms, "+")
+			if len(a.forms) == len(checkedForms[what]) && len(a.forms) > 1 {
+				forms = "*"
+			}
+			sig = fmt.Sprintf("range kind=%s family=%s %s form=%s wrong", k.name, label, what, forms)
+		}
+		r.Violation(sig, fmt.Sprintf("(%d observations, forms %s)\n%s", a.n, strings.Join(a.forms, ", "), a.detail), a.src)
 	}
 	if len(items) > 0 {
 		r.Sample(items[0].Code)
